@@ -1774,7 +1774,7 @@ func main() {
 	rep.Sample(Case{Part: "declared", Declared: 4097, BodyLen: 4097})
 
 	// ---- login in memory, adversarial clients
-	reqIDs := []int32{0, 1, 12345, math.MaxInt32, math.MinInt32}
+	reqIDs := []int32{0, 1, -1, -2, 12345, math.MaxInt32, math.MinInt32} // -1 is the id the protocol answers a refused login with
 	nLoginMem := 0
 	for i := range passwords {
 		for j := range passwords {
